@@ -384,11 +384,20 @@ func FlattenEventLists(eventslist []*EventList) (*EventList, error) {
 	})
 	var events []*Event
 	prod := big.NewInt(1)
+	// the result is known to be a chain only if every piece is one and continues its predecessor
+	verified := true
 	for _, e := range eventslist {
+		if !e.verified || e.validationErr != nil {
+			verified = false
+		}
+		if n := len(events); n != 0 && len(e.Events) != 0 &&
+			(events[n-1].Index+1 != e.Events[0].Index || events[n-1].hashEquals(e.Events[0].ParentHash) != nil) {
+			verified = false
+		}
 		prod.Mul(prod, e.product)
 		events = append(events, e.Events...)
 	}
-	return &EventList{Events: events, product: prod, verified: true}, nil
+	return &EventList{Events: events, product: prod, verified: verified}, nil
 }
 
 type compressedEventList struct {
